@@ -11,7 +11,7 @@
  *   T                  strtab_to_array (+ array/table deleted) -> T <size> <elem0> <elem1> ...   (~ = NULL)
  *   F <size>           functab_new(size)                       -> F | size count | idx:id:func#:entry:params_count ...
  *   f <id> <e> <pc>    functab_add_func(tab, new func named id, e, NULL, pc)  -> f | ...
- *   g <id>             functab_lookup(tab, id)                 -> g <idx>:<func#> or g - | ...
+ *   g <id>             functab_lookup(tab, id)                 -> g <idx>:<func#>:<entry>:<params_count> or g - | ...
  *   K                  functab_close(tab)                      -> K | ...   (then entries carry strdup'ed ids + addr)
  */
 #include <stdio.h>
@@ -182,7 +182,7 @@ int main(int argc, char ** argv)
             char * id = unhex(a1);
             functab_entry * e = functab_lookup(ft, id);
             free(id);
-            if (e != NULL) printf("g %ld:%d", (long)(e - ft->entries), e->func_value->index);
+            if (e != NULL) printf("g %ld:%d:%d:%u", (long)(e - ft->entries), e->func_value->index, e->entry_type, e->params_count);
             else printf("g -");
             dump_functab(ft);
         }
